@@ -143,3 +143,15 @@ package labels
 // getNumVoxels only reads the block (frame trusted; its count is not under contract yet).
 //@ func Block.getNumVoxels
 //@   trusted
+
+// ---- label index restricted to block bounds (C08) ----
+// After FitToBounds the index holds exactly the blocks it held before that are not outside the
+// bounds (block coordinates are the decoded packed keys).
+//@ func Index.FitToBounds
+//@   prop C08
+//@   requires idx != nil
+//@   modifies idx.Blocks[*]
+//@   invariant loop 1: forall k uint64 :: visited1[k] ==> (has(idx.Blocks, k) == (old(has(idx.Blocks, k)) && !outsideB(bounds, unpackc(k & 0x1FFFFF), unpackc((k >> 21) & 0x1FFFFF), unpackc((k >> 42) & 0x1FFFFF))))
+//@   invariant loop 1: forall k uint64 :: !visited1[k] ==> has(idx.Blocks, k) == old(has(idx.Blocks, k))
+//@   ensures bounds == nil ==> (forall k uint64 :: has(idx.Blocks, k) == old(has(idx.Blocks, k)))
+//@   ensures bounds != nil ==> (forall k uint64 :: has(idx.Blocks, k) == (old(has(idx.Blocks, k)) && !outsideB(bounds, unpackc(k & 0x1FFFFF), unpackc((k >> 21) & 0x1FFFFF), unpackc((k >> 42) & 0x1FFFFF))))
